@@ -30,6 +30,7 @@ func init() {
 		out["builders"] = builderFacts(repo)
 		out["globalwrites"] = globalWriteFacts(repo)
 		out["errdrops"] = errDropFacts(repo)
+		out["asmvars"] = asmVarFacts(repo)
 		out["lazyctors"] = lazyCtorFacts(repo)
 		out["observerwrites"] = observerWriteFacts(repo)
 		enc := json.NewEncoder(os.Stdout)
@@ -619,6 +620,30 @@ func globalWriteFacts(repo string) []map[string]interface{} {
 			}
 		}
 	}
+	return out
+}
+
+// asmVarFacts: the package-level variables of package asm (the translator keeps all its state in the per-parse generator value; a package-level
+// buffer, cache or counter would be shared by parses running on different goroutines and by successive parses).
+func asmVarFacts(repo string) []string {
+	_, files := parseDir(repo, "asm")
+	var out []string
+	for _, f := range files {
+		for _, d := range f.Decls {
+			gd, ok := d.(*ast.GenDecl)
+			if !ok || gd.Tok != token.VAR {
+				continue
+			}
+			for _, sp := range gd.Specs {
+				for _, n := range sp.(*ast.ValueSpec).Names {
+					if n.Name != "_" {
+						out = append(out, n.Name)
+					}
+				}
+			}
+		}
+	}
+	sort.Strings(out)
 	return out
 }
 
